@@ -795,6 +795,18 @@ def run_malformed(ctx, part):
             except Exception:
                 return None
 
+    if part == 0:
+        # print formats that are neither the library's notation nor a supported strftime format: output or a non-zero
+        # exit with a message, never a traceback
+        for fmt in ("%-d", "%(year)s", "CCYY-MM-DD %(foo)s", "%", "CCYY%", "%Y-%", "100%", "%5Y", "%Y %(month_of_year)02d"):
+            for argv in ([good_item, "-f", fmt], ["R2/" + good_item + "/P1D", "-f", fmt], [good_item, good_item, "-f", fmt]):
+                ctx.transitions += 1
+                ctx.state_count += 1
+                res = run_main(argv)
+                if res[0] == "exc":
+                    ctx.violation("no_traceback", {"slot": "print_format", "exc": res[1].split(":")[0]},
+                                  {"kind": "malformed", "slot": "print_format", "argv": argv, "env": None},
+                                  "output or a non-zero exit with a message", res[1])
     for i, bad in enumerate(malformed_texts()):
         if i % 2 != part:
             continue
